@@ -160,6 +160,34 @@ def _check_world(w, r, where):
                     r.bad(["unit-mismatch", e.kind], f"{where}: pool[{ei}] alias {oi} comp {ci}: unit {a.unit}, model "
                           f"factor {m.unit[0]!r} dims {[str(x) for x in m.unit[1]]}")
                     return
+    # converting a tracked Array must reflect its current values (no stale conversion state); also comparisons,
+    # which convert their right operand
+    for ei, e in enumerate(w.pool):
+        if e.kind != "A":
+            continue
+        m = e.comps[0]
+        base = "cm**{}*g**{}*s**{}*K**{}".format(*[float(x) for x in m.unit[1]])
+        if abs(m.unit[0] - 1.0) < 1e-12:
+            continue                      # already in base units: to() is the identity shortcut
+        want = w.raw(m) * m.unit[0]
+        for oi, obj in enumerate(e.objs[:1]):
+            try:
+                got = np.asarray(obj.to(base).values, dtype=np.float64)
+                probe = osyris.Array(values=np.zeros(want.shape), unit=base)
+                less = np.asarray((probe < obj).values)
+            except Exception as ex:
+                r.bad(["to-raises", type(ex).__name__], f"{where}: pool[{ei}].to({base}): {ex!r}")
+                return
+            tol = 1e-5 if (m.lowp or w.buf_lowp.get(m.buf)) else 1e-9
+            with np.errstate(all="ignore"):
+                ok = (np.abs(got - want) <= tol * np.abs(want)) | (got == want) | ~np.isfinite(want) | (np.abs(want) > 1e30)
+                okc = (less == (want > 0)) | ~np.isfinite(want) | (want == 0)
+            if got.shape != want.shape or not np.all(ok):
+                r.bad(["conversion-stale"], f"{where}: pool[{ei}].to({base}) = {got.tolist()} but its values are {want.tolist()} (cgs)")
+                return
+            if not np.all(okc):
+                r.bad(["comparison-stale"], f"{where}: 0 < pool[{ei}] gave {less.tolist()} for values {want.tolist()}")
+                return
     # the norm of every tracked Vector must follow its components (no stale derived state)
     for ei, e in enumerate(w.pool):
         if e.kind != "V" or len(e.comps) < 2:
